@@ -4,6 +4,7 @@
 -/
 import TuModel.Lemmas.DictL
 import TuModel.Lemmas.DictFileL
+import TuModel.Lemmas.DictAcceptL
 namespace Tu.C20
 open Tu
 
@@ -251,5 +252,155 @@ example : loadPairs (dictSave [([97, 9, 98], 1)]) = none := by decide
 example : (dictLoad (dictSave [([97], 2), ([97], 1)])).map (·.entries) = some [([97], 1)] := by decide
 /-- `parseLine_keyOk`: `load` accepts a `+` sign and surrounding white space, the key it returns is well-formed -/
 example : parseLine [32, 97, 32, 98, 9, 43, 53, 32, 13] = some ([97, 32, 98], 5) := by decide
+
+/-! ### the relational acceptance test `dictAccept` (Model/Dict.lean) -/
+
+/-- the clauses of `dictAccept`, as propositions -/
+theorem dictAccept_iff (lines : List (List Tok)) (maxSize maxSeq : Option Nat) (entries : List (Tok × Nat)) (freqSum : Nat) :
+    dictAccept lines maxSize maxSeq entries freqSum = true ↔
+    (let toks := (match maxSeq with | none => lines | some m => lines.take m).flatten
+     (entries.map (·.1)).Nodup ∧
+     (∀ e ∈ entries, 0 < e.2 ∧ e.2 = countOf toks e.1) ∧
+     entries.length = (match maxSize with | none => (countAll toks).length | some k => min k (countAll toks).length) ∧
+     (∀ e ∈ countAll toks, e.1 ∈ entries.map (·.1) ∨ e.2 ≤ (entries.map (·.2)).foldl min (toks.length + 1)) ∧
+     freqSum = (entries.map (·.2)).sum) := by
+  unfold dictAccept
+  simp only [Bool.and_eq_true, beq_iff_eq, List.all_eq_true, Bool.or_eq_true, decide_eq_true_eq,
+    List.contains_eq_mem, DictAcceptL.eraseDups_length_eq_iff]
+  constructor
+  · rintro ⟨⟨⟨⟨h1, h2⟩, h3⟩, h4⟩, h5⟩; exact ⟨h1, h2, h3, h4, h5⟩
+  · rintro ⟨h1, h2, h3, h4, h5⟩; exact ⟨⟨⟨⟨h1, h2⟩, h3⟩, h4⟩, h5⟩
+
+
+/-- the modelled function's own result is accepted (the acceptance test never refuses the modelled code) -/
+theorem dictCreate_accepted (lines : List (List Tok)) (maxSize maxSeq : Option Nat) :
+    dictAccept lines maxSize maxSeq (dictCreate lines maxSize maxSeq).entries
+      (dictCreate lines maxSize maxSeq).freqSum = true := by
+  rw [dictAccept_iff]
+  simp only [dictCreate]
+  generalize (match maxSeq with | none => lines | some m => lines.take m).flatten = toks
+  have hsub : ∀ e ∈ topK (countAll toks) maxSize, e ∈ countAll toks := topK_sub _ _
+  have hsl : (topK (countAll toks) maxSize).Sublist (countAll toks) := by
+    cases maxSize with
+    | none => exact List.Sublist.refl _
+    | some k => exact List.filter_sublist
+  refine ⟨(hsl.map _).nodup (countAll_keys_nodup toks), ?_, ?_, ?_, trivial⟩
+  · intro e he
+    have := (DictAcceptL.mem_countAll toks e).1 (hsub e he)
+    exact ⟨this.2 ▸ (DictAcceptL.countOf_pos_iff toks e.1).2 this.1, this.2⟩
+  · cases maxSize with
+    | none => rfl
+    | some k => exact topK_length _ k (countAll_keys_nodup toks)
+  · intro e he
+    by_cases hk : e ∈ topK (countAll toks) maxSize
+    · exact Or.inl (List.mem_map.2 ⟨e, hk, rfl⟩)
+    · right
+      cases maxSize with
+      | none => exact absurd he hk
+      | some k =>
+        apply DictAcceptL.le_foldl_min
+        · have := (DictAcceptL.mem_countAll toks e).1 he
+          have h2 := DictAcceptL.countOf_le_length toks e.1
+          omega
+        · intro x hx
+          obtain ⟨x', hx', rfl⟩ := List.mem_map.1 hx
+          exact topK_dominates (countAll toks) k x' e hx' he hk
+
+/-- what acceptance means: the property's clauses -/
+theorem dictAccept_spec (lines : List (List Tok)) (maxSize maxSeq : Option Nat) (entries : List (Tok × Nat)) (freqSum : Nat)
+    (h : dictAccept lines maxSize maxSeq entries freqSum = true) :
+    let toks := (match maxSeq with | none => lines | some m => lines.take m).flatten
+    (entries.map (·.1)).Nodup ∧
+    (∀ e ∈ entries, e.2 = countOf toks e.1 ∧ 0 < e.2) ∧
+    entries.length = (match (generalizing := false) maxSize with | none => (countAll toks).length | some k => min k (countAll toks).length) ∧
+    (∀ t, t ∈ toks → t ∉ entries.map (·.1) → ∀ e ∈ entries, countOf toks t ≤ e.2) ∧
+    freqSum = (entries.map (·.2)).sum := by
+  rw [dictAccept_iff] at h
+  obtain ⟨h1, h2, h3, h4, h5⟩ := h
+  refine ⟨h1, fun e he => ⟨(h2 e he).2, (h2 e he).1⟩, h3, ?_, h5⟩
+  intro t ht hnk e he
+  rcases h4 (t, countOf _ t) ((countAll_spec _ t _).2 ⟨ht, rfl⟩) with hin | hle
+  · exact absurd hin hnk
+  · exact Nat.le_trans hle ((DictAcceptL.foldl_min_le _ _).2 e.2 (List.mem_map.2 ⟨e, he, rfl⟩))
+
+/-- … and conversely: the clauses of `dictAccept_spec` are all that acceptance asks for -/
+theorem dictAccept_of_spec (lines : List (List Tok)) (maxSize maxSeq : Option Nat) (entries : List (Tok × Nat)) (freqSum : Nat)
+    (h : let toks := (match maxSeq with | none => lines | some m => lines.take m).flatten
+      (entries.map (·.1)).Nodup ∧
+      (∀ e ∈ entries, e.2 = countOf toks e.1 ∧ 0 < e.2) ∧
+      entries.length = (match maxSize with | none => (countAll toks).length | some k => min k (countAll toks).length) ∧
+      (∀ t, t ∈ toks → t ∉ entries.map (·.1) → ∀ e ∈ entries, countOf toks t ≤ e.2) ∧
+      freqSum = (entries.map (·.2)).sum) :
+    dictAccept lines maxSize maxSeq entries freqSum = true := by
+  rw [dictAccept_iff]
+  obtain ⟨h1, h2, h3, h4, h5⟩ := h
+  refine ⟨h1, fun e he => ⟨(h2 e he).2, (h2 e he).1⟩, h3, ?_, h5⟩
+  intro e he
+  have hm := (DictAcceptL.mem_countAll _ e).1 he
+  by_cases hk : e.1 ∈ entries.map (·.1)
+  · exact Or.inl hk
+  · right
+    apply DictAcceptL.le_foldl_min
+    · rw [hm.2]
+      exact Nat.le_succ_of_le (DictAcceptL.countOf_le_length _ e.1)
+    · intro x hx
+      obtain ⟨x', hx', rfl⟩ := List.mem_map.1 hx
+      rw [hm.2]
+      exact h4 e.1 hm.1 hk x' hx'
+
+/-- with no max_size every token of the used lines is an entry -/
+theorem dictAccept_unlimited (lines : List (List Tok)) (maxSeq : Option Nat) (entries : List (Tok × Nat)) (freqSum : Nat)
+    (h : dictAccept lines none maxSeq entries freqSum = true) :
+    let toks := (match maxSeq with | none => lines | some m => lines.take m).flatten
+    ∀ t, t ∈ toks → (t, countOf toks t) ∈ entries := by
+  have hs := dictAccept_spec lines none maxSeq entries freqSum h
+  simp only at hs ⊢
+  generalize (match maxSeq with | none => lines | some m => lines.take m).flatten = toks at hs
+  obtain ⟨h1, h2, h3, -, -⟩ := hs
+  intro t ht
+  have hsubset : entries.map (·.1) ⊆ toks.eraseDups := by
+    intro k hk
+    obtain ⟨e, he, rfl⟩ := List.mem_map.1 hk
+    rw [List.mem_eraseDups]
+    have := h2 e he
+    exact (DictAcceptL.countOf_pos_iff toks e.1).1 (this.1 ▸ this.2)
+  have hperm := DictFileL.perm_of_nodup_subset (entries.map (·.1)) toks.eraseDups h1 hsubset (by
+    rw [List.length_map, h3, DictAcceptL.countAll_length]; exact Nat.le_refl _)
+  have hk : t ∈ entries.map (·.1) := hperm.mem_iff.2 (List.mem_eraseDups.2 ht)
+  obtain ⟨e, he, rfl⟩ := List.mem_map.1 hk
+  have := (h2 e he).1
+  rw [← this]
+  exact he
+
+
+/-! ### non-vacuity of the acceptance test: a frequency tie at the cut -/
+
+/-- tokens `a`, `b`, each twice, `max_size = 1` -/
+private def tieLines : List (List Tok) := [[[97], [98]], [[98], [97]]]
+
+/-- BOTH survivors of the tie are accepted (the model keeps `b`, the greater word) … -/
+example : dictAccept tieLines (some 1) none [([97], 2)] 2 = true := by decide
+example : dictAccept tieLines (some 1) none [([98], 2)] 2 = true := by decide
+example : (dictCreate tieLines (some 1) none).entries = [([98], 2)] := by decide
+/-- … a wrong count, too many entries, too few entries, a wrong `freq_sum`, a token that does not occur and a
+repeated key are refused -/
+example : dictAccept tieLines (some 1) none [([97], 1)] 1 = false := by decide
+example : dictAccept tieLines (some 1) none [([97], 2), ([98], 2)] 4 = false := by decide
+example : dictAccept tieLines (some 1) none [] 0 = false := by decide
+example : dictAccept tieLines (some 1) none [([97], 2)] 3 = false := by decide
+example : dictAccept tieLines (some 1) none [([99], 0)] 0 = false := by decide
+example : dictAccept tieLines (some 2) none [([97], 2), ([97], 2)] 4 = false := by decide
+/-- a kept entry less frequent than an omitted one is refused (`a` three times, `b` once, `c` twice) -/
+example : dictAccept [[[97], [98], [97]], [[99], [97], [99]]] (some 2) none [([97], 3), ([98], 1)] 4 = false := by decide
+example : dictAccept [[[97], [98], [97]], [[99], [97], [99]]] (some 2) none [([99], 2), ([97], 3)] 5 = true := by decide
+example : dictAccept [[[97], [98], [97]], [[99], [97], [99]]] (some 1) none [([99], 2)] 2 = false := by decide
+/-- `max_size = 0`, the empty corpus, `max_sequences`, and no `max_size` (any order of the entries) -/
+example : dictAccept tieLines (some 0) none [] 0 = true := by decide
+example : dictAccept tieLines (some 0) none [([97], 2)] 2 = false := by decide
+example : dictAccept [] (some 3) none [] 0 = true := by decide
+example : dictAccept [] none none [] 0 = true := by decide
+example : dictAccept [[[97], [98]], [[97]], [[99]]] none (some 2) [([98], 1), ([97], 2)] 3 = true := by decide
+example : dictAccept [[[97], [98]], [[97]], [[99]]] none (some 2) [([97], 2), ([98], 1), ([99], 1)] 4 = false := by decide
+example : dictAccept [[[97], [98]], [[97]], [[99]]] none (some 2) [([97], 2)] 2 = false := by decide
 
 end Tu.C20
